@@ -2,7 +2,7 @@
 TLC: spec/CloudKey.tla (GetKey: `id` required, kms:GetPublicKey; Sign: algorithm chosen from key type, digest algorithm
 and PSS option, unsupported digests refused locally, kms:Sign on a digest; the service's own rules - algorithm against key
 spec, digest length - and scripted faults; the SDK's bounded retries of transient faults): NoCallWithoutId, LocalRefusal,
-AlgorithmRight, SignatureFromService, ErrorsSurface, BoundedAttempts, TransientIsHidden, liveness Terminates; 6 negative
+AlgorithmRight (per request, also for a second signature with other options on the same key object), SignatureFromService, ErrorsSurface, BoundedAttempts, TransientIsHidden, liveness Terminates; 7 negative
 controls. Binding (A): every behaviour on the real aws token (AWS SDK, SigV4 and all) in front of a KMS stand-in that speaks
 the service's JSON protocol and enforces its validation rules: remote calls in order (operation, algorithm, message type,
 outcome), key id, digest and request signature of every call, the result; a returned signature is verified (PKCS#1 v1.5,
@@ -11,7 +11,7 @@ import json, os, concurrent.futures as cf
 from vlib.common import *
 from checks.C15 import _absorb
 
-NEG = [("Sha1AsSha256", "LocalRefusal"), ("PssIgnored", "AlgorithmRight"), ("SwallowSignError", "SignatureFromService"), ("RawMessage", "AlgorithmRight"),
+NEG = [("RememberAlgorithm", "AlgorithmRight"), ("Sha1AsSha256", "LocalRefusal"), ("PssIgnored", "AlgorithmRight"), ("SwallowSignError", "SignatureFromService"), ("RawMessage", "AlgorithmRight"),
        ("RetryForever", "BoundedAttempts"), ("AskWithoutId", "NoCallWithoutId")]
 
 
@@ -27,7 +27,7 @@ def run(t):
     g = run_tlc("CloudKey_Gen", "CloudKey_Gen.cfg", timeout=600)
     tlc_must_pass(g, "CloudKey_Gen")
     run.add_tlc(g, "CloudKey gen")
-    if len(g.beh) < 200:
+    if len(g.beh) < 300:
         raise NoVerdict(f"only {len(g.beh)} CloudKey behaviours")
     reps = 1 if t == "quick" else 4     # the SDK's back-off is random: repeat the replay in the thorough tier
     d = scratch("x05")
@@ -55,7 +55,7 @@ def run(t):
     run.cov["signatures_verified"] = sigs
     run.cov["rule"] = (f"all {len(g.beh)} complete behaviours of CloudKey_Gen (x{reps}) on the real aws token: key spec {{RSA_2048, ECC_NIST_P256, ECC_NIST_P384}} x key entry with / without id x "
                        "digest {SHA-1, SHA-256, SHA-384, SHA-512} x PSS (RSA) x fault of GetPublicKey {none, denied, not found, garbage public key, throttled once, internal error once, "
-                       "always throttled} or of Sign {none, denied, key unavailable, throttled once, internal error once, always throttled}; compared: the service's call log "
+                       "always throttled} or of Sign {none, denied, key unavailable, throttled once, internal error once, always throttled}, and - fault-free - a second signature with another digest algorithm or padding on the same key object; compared: the service's call log "
                        "(operation, signing algorithm, message type, outcome, key id, digest bytes, SigV4 header), the result, signature verification under the service's key; "
                        "non-trivial = more than one remote call")
     run.cov["exhaustive"] = True
